@@ -10,18 +10,18 @@ import (
 )
 
 type funcResult struct {
-	key       string
-	obls      []*obligation
-	notes     []string
-	trusted   []string
-	err       string // generator failure (function outside the subset)
-	script    func(o *obligation) string
+	key        string
+	obls       []*obligation
+	notes      []string
+	trusted    []string
+	err        string // generator failure (function outside the subset)
+	script     func(o *obligation) string
 	byContract []string
-	inlined   []string
-	genS      float64
+	inlined    []string
+	genS       float64
 	safetyOnly bool
-	x         *vc
-	reach     []*obligation
+	x          *vc
+	reach      []*obligation
 }
 
 // verifyFunction generates all obligations for one function under contract.
@@ -44,6 +44,7 @@ func verifyFunction(p *program, fn *ssa.Function, fc *funcContract, safetyOnly b
 	fr := x.newFrame(fn, 0)
 	fr.top = true
 	fr.fc = fc
+	x.topFrame = fr
 	x.stack = []*ssa.Function{fn}
 	for _, prm := range fn.Params {
 		v := x.freshVal("p_"+prm.Name(), prm.Type(), st)
@@ -86,6 +87,19 @@ func verifyFunction(p *program, fn *ssa.Function, fc *funcContract, safetyOnly b
 			x.frameObligations(fr, out.st, fc, pos)
 		}
 	}
+	if fc != nil {
+		for _, ac := range fc.atcalls {
+			if !ac.seen {
+				g0 := &state{heap: map[string]string{}, guard: "true"}
+				detail := fmt.Sprintf("%s#%d", ac.callee, ac.ordinal)
+				if ac.cl.tag != "" {
+					detail += "." + ac.cl.tag
+				}
+				x.oblige(g0, "callarg", detail, "false", pos, "the call this clause speaks about does not exist (any more): "+ac.cl.text, false)
+			}
+			ac.seen = false
+		}
+	}
 	if out.noRet && fc != nil && !fc.noreturn && len(fc.ensures) > 0 {
 		x.note("function never returns normally in the model; postconditions vacuous")
 	}
@@ -123,6 +137,52 @@ func verifyFunction(p *program, fn *ssa.Function, fc *funcContract, safetyOnly b
 		}
 		res.obls = keep
 	}
+	return res
+}
+
+// verifyLemma: a contract block `func lemma:<name>` with only ensures clauses: facts about package-level
+// tables (whose values come from constant initialisers or from the contract of their initialiser function).
+func verifyLemma(p *program, key string, fc *funcContract) (res *funcResult) {
+	res = &funcResult{key: key}
+	sp := p.spkgs[fc.pkg]
+	if sp == nil {
+		res.err = "unknown package for lemma"
+		return res
+	}
+	initFn := sp.Func("init")
+	x := newVC(p, initFn, fc)
+	x.nameOverride = key
+	defer func() {
+		if r := recover(); r != nil {
+			if ce, ok := r.(cevalErr); ok {
+				res.err = "contract error: " + ce.msg
+				return
+			}
+			panic(r)
+		}
+	}()
+	x.decls = append(x.decls, "(declare-fun empty_arr () (Array Int Int))", "(define-sort RV () Int)", "(define-fun rv_zero () Int 0)", "(declare-fun nextRef!0 () Int)")
+	x.assume("true", app(">", "nextRef!0", fmt.Sprint(maxGlobals)))
+	st := &state{heap: map[string]string{}, guard: "true", nextRef: "nextRef!0"}
+	env := &cenv{x: x, vars: map[string]Val{}, st: st, old: st, pkg: sp.Pkg}
+	pos := fc.file + ":" + fmt.Sprint(fc.line)
+	for k, e := range fc.ensures {
+		tag := fmt.Sprint(k)
+		if e.tag != "" {
+			tag = e.tag
+		}
+		x.oblige(st, "lemma", tag, x.evalBool(env, e.expr), pos, "lemma: "+e.text, false)
+	}
+	o := x.oblige(st, "canary", "assumptions-consistent", "false", pos, "vacuity canary: must be REFUTED (table facts consistent)", true)
+	o.canary = true
+	res.obls = x.obls
+	res.notes = x.notes
+	for k := range x.trusted {
+		res.trusted = append(res.trusted, k)
+	}
+	sort.Strings(res.trusted)
+	res.script = func(o *obligation) string { return x.script(o) }
+	res.x = x
 	return res
 }
 
